@@ -99,18 +99,20 @@ func c12Oracle(res *lab.Result, m *lab.Model, h *lab.History) []lab.Violation {
 	}
 	vs = append(vs, h.CheckResume("C12")...)
 	// after the restart ran to a graceful end, nothing may have been skipped
-	restarted := false
-	for _, cr := range res.Ctl {
-		if cr.Kind == "start" && cr.CallIdx > 0 && cr.Returned && cr.Err == "" && cr != res.Ctl[0] {
-			restarted = true
-		}
-	}
+	restarted := restartOK(res)
 	if restarted && res.FinalStatus.String() == "UserStopped" && h.AllEmitted() {
 		vs = append(vs, h.CheckAllHandled("C12")...)
 	}
 	if forceOK(res) && !restartOK(res) && !res.Wedged {
+		forceRet := 0
 		for _, cr := range res.Ctl {
-			if cr.Kind == "start" && cr != res.Ctl[0] && cr.Returned && cr.Err != "" {
+			if cr.Kind == "forcestop" && cr.Returned && cr.Err == "" {
+				forceRet = cr.RetIdx
+				break
+			}
+		}
+		for _, cr := range res.Ctl {
+			if cr.Kind == "start" && cr != res.Ctl[0] && cr.CallIdx > forceRet && cr.Returned && cr.Err != "" {
 				vs = append(vs, lab.Violation{Prop: "C12", Key: "C12/cannot-start-after-force-stop/" + res.Case.Engine, Index: cr.RetIdx,
 					Detail: "start after a force stop failed: " + cr.Err})
 			}
@@ -129,8 +131,15 @@ func forceOK(res *lab.Result) bool {
 }
 
 func restartOK(res *lab.Result) bool {
+	forceRet := -1
 	for _, cr := range res.Ctl {
-		if cr.Kind == "start" && cr != res.Ctl[0] && cr.Returned && cr.Err == "" {
+		if cr.Kind == "forcestop" && cr.Returned && cr.Err == "" {
+			forceRet = cr.RetIdx
+			break
+		}
+	}
+	for _, cr := range res.Ctl {
+		if cr.Kind == "start" && cr != res.Ctl[0] && forceRet >= 0 && cr.CallIdx > forceRet && cr.Returned && cr.Err == "" {
 			return true
 		}
 	}
